@@ -298,14 +298,24 @@ func c03Run(sc *c03Scenario, cfgs []proxyCfg) (string, []*collected) {
 
 var c03Names = []string{"a", "b", "c", "d"}
 
-func c03GenScenario(rt *rapid.T, constrainAggr bool) *c03Scenario {
+// c03Opts narrows the scenario generator (C06 reuses it with small, plain scenarios).
+type c03Opts struct {
+	constrainAggr        bool // exclude the class of known finding F3 by construction
+	minStores, maxStores int
+	maxSeries            int
+	plain                bool              // raw chunks only, no store-sent warning frames, no Recv pauses
+	maxFrames            func(nst int) int // optional bound on the frames per store
+}
+
+func c03GenScenario(rt *rapid.T, o c03Opts) *c03Scenario {
+	constrainAggr := o.constrainAggr
 	sc := &c03Scenario{classes: map[string]bool{}}
 	sc.replica = rapid.SampledFrom([][]string{nil, nil, {"b"}, {"d"}, {"b", "d"}, {"a"}, {"c"}, {"b", "c"}}).Draw(rt, "replicaLabels")
 	strip := map[string]struct{}{}
 	for _, r := range sc.replica {
 		strip[r] = struct{}{}
 	}
-	aggr := rapid.IntRange(0, 4).Draw(rt, "aggr") == 0
+	aggr := !o.plain && rapid.IntRange(0, 4).Draw(rt, "aggr") == 0
 	var fields []int
 	flat := false
 	if aggr {
@@ -324,7 +334,7 @@ func c03GenScenario(rt *rapid.T, constrainAggr bool) *c03Scenario {
 	}
 
 	// universe of full label sets
-	nser := rapid.IntRange(1, 6).Draw(rt, "series")
+	nser := rapid.IntRange(1, o.maxSeries).Draw(rt, "series")
 	type useries struct {
 		full     labels.Labels
 		stripped string
@@ -423,7 +433,7 @@ func c03GenScenario(rt *rapid.T, constrainAggr bool) *c03Scenario {
 	}
 
 	// stores
-	nst := rapid.IntRange(1, 5).Draw(rt, "stores")
+	nst := rapid.IntRange(o.minStores, o.maxStores).Draw(rt, "stores")
 	taken := map[string]bool{} // stripped|chunk already placed (only when unique)
 	for si := 0; si < nst; si++ {
 		st := &fakeStore{name: fmt.Sprintf("fakestore-%d", si), mint: -1 << 62, maxt: 1 << 62}
@@ -462,7 +472,10 @@ func c03GenScenario(rt *rapid.T, constrainAggr bool) *c03Scenario {
 		splitP := rapid.IntRange(0, 9).Draw(rt, "splitP")
 		batchMode := rapid.IntRange(0, 3).Draw(rt, "batchMode") // 0 none, 1 fixed size, 2 mixed, 3 none
 		fixed := rapid.IntRange(1, 4).Draw(rt, "batchSize")
-		frames, split, resorted := c03BuildFrames(held, strip, st.withoutReplica,
+		var frames []frameSpec
+		var split, resorted bool
+	build:
+		frames, split, resorted = c03BuildFrames(held, strip, st.withoutReplica,
 			func(i, n int) []int {
 				if n < 2 || rapid.IntRange(0, 9).Draw(rt, "split") >= splitP {
 					return nil
@@ -486,19 +499,23 @@ func c03GenScenario(rt *rapid.T, constrainAggr bool) *c03Scenario {
 				}
 				return 0
 			})
+		if o.maxFrames != nil && len(frames) > o.maxFrames(nst) {
+			held = held[:len(held)-1]
+			goto build
+		}
 		if split {
 			sc.classes["series-split-across-frames"] = true
 		}
 		if resorted {
 			sc.classes["proxy-must-resort"] = true
 		}
-		if rapid.IntRange(0, 19).Draw(rt, "storeWarning") == 0 {
+		if !o.plain && rapid.IntRange(0, 19).Draw(rt, "storeWarning") == 0 {
 			at := rapid.IntRange(0, len(frames)).Draw(rt, "warnAt")
 			w := frameSpec{warning: fmt.Sprintf("store-sent warning of %s", st.name)}
 			frames = append(frames[:at:at], append([]frameSpec{w}, frames[at:]...)...)
 			sc.classes["store-sent-warning-frame"] = true
 		}
-		if rapid.IntRange(0, 9).Draw(rt, "pauses") < 3 {
+		if !o.plain && rapid.IntRange(0, 9).Draw(rt, "pauses") < 3 {
 			n := rapid.IntRange(1, 4).Draw(rt, "pauseLen")
 			for i := 0; i < n; i++ {
 				st.pauses = append(st.pauses, rapid.SampledFrom([]int{pauseNone, pauseYield, pauseYield, 2, 3, 6}).Draw(rt, "pause"))
@@ -575,8 +592,9 @@ func TestVerifC03(t *testing.T) {
 	allFields := []int{fCount, fSum, fMin, fMax, fCounter}
 	distinctVals := func(f, i int, s smpl) float64 { return s.v + float64(10*f) }
 
-	// Regression inputs that must hold (raw chunks).
-	{
+	// Regression inputs that must hold (raw chunks). VERIF_N_c03fixed=0 skips them (used only to show
+	// that the generator alone finds the mutants).
+	if kit.Scale("c03fixed", 1, 1) > 0 {
 		r1, r2 := newRawChunk(ss1), newRawChunk(ss2)
 		r1b := newRawChunk([]smpl{{1000, 7}, {2000, 8}, {3000, 9}})
 		fixed := map[string]*c03Scenario{
@@ -636,7 +654,7 @@ func TestVerifC03(t *testing.T) {
 	}
 
 	rec.Check(t, func(rt *rapid.T) {
-		sc := c03GenScenario(rt, known[sigC03Aggr])
+		sc := c03GenScenario(rt, c03Opts{constrainAggr: known[sigC03Aggr], minStores: 1, maxStores: 5, maxSeries: 6})
 		cfgs := c03GenConfigs(rt)
 		if known[sigC03Aggr] && sc.classes["aggr-multi-field"] {
 			rec.Excluded(sigC03Aggr)
